@@ -129,8 +129,8 @@ def run(res, f, tier):
     m = f.mono
     nodes = m["nodes"]
     n = len(nodes)
-    res.floor("monomorphic instances", n, 2500)
-    res.floor("call edges", len(m["edges"]), 8000)
+    res.floor("monomorphic instances", n, 1500)
+    res.floor("call edges", len(m["edges"]), 5000)
     adj = [[] for _ in range(n)]
     for a, b, k in m["edges"]:
         adj[a].append(b)
@@ -161,10 +161,16 @@ def run(res, f, tier):
     samples = []
     guarded = 0
     cycle_keys = []
+    radj_all = {}
+    for a_, b_, k_ in m["edges"]:
+        radj_all.setdefault(b_, []).append(a_)
     for c, local, drops in relevant:
         if local:
-            h = hashlib.sha1(",".join(local).encode()).hexdigest()[:8]
-            key = "C19|cycle|%s(+%d)#%s" % (local[0], len(local) - 1, h)
+            # the cycle is named after the member through which it is entered from outside (stable when helpers are
+            # extracted or inlined inside the cycle); SCCs are disjoint, so the name identifies the cycle
+            cs_ = set(c)
+            entered = sorted(set(nodes[i]["path"] for i in c if nodes[i]["local"] and any(a_ not in cs_ for a_ in radj_all.get(i, []))))
+            key = "C19|cycle|%s" % (entered[0] if entered else local[0])
             what = "unbounded recursion over the expression / value tree through %s" % ", ".join(local[:5])
         else:
             key = "C19|cycle|drop:%s" % drops[0]
@@ -215,7 +221,7 @@ def run(res, f, tier):
                 rk = "C19|reach|%s|%s" % (op, short)
                 res.violation(rk, "%s can run into the unbounded recursion %s (so a deep enough input aborts the process during %s)" % (op, short, op))
                 reach_rows.append(rk)
-    res.floor("recursion cycles over the tree types", len(relevant), 8)
+    res.floor("recursion cycles over the tree types", len(relevant), 6)
     import control
     controls = control.recursion_controls()
     res.coverage = {
